@@ -100,7 +100,7 @@ def as_counts(y, spec):
 
 def keep_dtype(d):
     d = np.asarray(d)
-    return np.array(d) if np.issubdtype(d.dtype, np.integer) else np.array(d, dtype=float)
+    return np.array(d) if (np.issubdtype(d.dtype, np.integer) or d.dtype == np.float32) else np.array(d, dtype=float)
 
 
 def build_case_data(spec):
@@ -149,13 +149,40 @@ def build_case_data(spec):
 
 
 # ------------------------------------------------------------------------------------------------ running the classes
-def make_alg(alg, P, ref_ind, kf=1.0):
+class Form:
+    """How option VALUES are written.  Established on the unchanged tree: every run parameter of every class, the sampling
+    frequency, reference indices, the mpe arguments and the entries of an order LIST accept Python and NumPy scalars alike (ints
+    also as elements of np.arange, floats also as 0-d arrays, booleans also as 1/0 and np.bool_); only a SCALAR mpe order must be a
+    Python int (np.int64 raises AttributeError in SSI_mpe / ValueError in pLSCF_mpe) and stays one.  np.float32 is not used for
+    floats: float32(0.1) is another number."""
+
+    def __init__(self, name=None):
+        self.name = name or "py"
+
+    def i(self, v):
+        v = int(v)
+        return {"py": v, "np64": np.int64(v), "np32": np.int32(v), "arange": np.arange(abs(v) + 1)[abs(v)] * (1 if v >= 0 else -1)}[self.name]
+
+    def f(self, v):
+        v = float(v)
+        return {"py": v, "np64": np.float64(v), "np32": np.array(v), "arange": np.float64(v)}[self.name]
+
+    def b(self, v):
+        v = bool(v)
+        return {"py": v, "np64": np.bool_(v), "np32": int(v), "arange": np.bool_(v)}[self.name]
+
+    def hc(self, d):
+        return {k: (self.b(v) if k == "conj" else self.f(v)) for k, v in d.items()}
+
+
+def make_alg(alg, P, ref_ind, kf=1.0, form=None):
     from pyoma2 import algorithms as A
 
+    F = form or Form()
     fam = family(alg)
     if fam in ("FDD", "EFDD"):
         cls = dict(FDD=A.FDD, EFDD=A.EFDD, FSDD=A.FSDD, FDD_MS=A.FDD_MS, EFDD_MS=A.EFDD_MS)[alg]
-        return cls(name="a", nxseg=P["nxseg"], method_SD=P["method_SD"], pov=P["pov"])
+        return cls(name="a", nxseg=F.i(P["nxseg"]), method_SD=P["method_SD"], pov=F.f(P["pov"]))
     if fam == "SSI":
         base, _, meth = alg.partition("_")
         if alg.startswith("SSIcov_MS"):
@@ -167,16 +194,19 @@ def make_alg(alg, P, ref_ind, kf=1.0):
         else:
             cls, meth = A.SSIdat, "dat"
         # cov_max is a variance of a frequency: the same physical limit in the new time unit is cov_max * kf^2
-        kw = dict(br=P["br"], ordmax=P["ordmax"], ordmin=P.get("ordmin", 0), method=meth, hc=dict(P["hc"], cov_max=P["hc"]["cov_max"] * kf * kf), sc=dict(P["sc"]))
+        kw = dict(br=F.i(P["br"]), ordmax=F.i(P["ordmax"]), ordmin=F.i(P.get("ordmin", 0)), method=meth,
+                  hc=F.hc(dict(P["hc"], cov_max=P["hc"]["cov_max"] * kf * kf)), sc={k: F.f(v) for k, v in P["sc"].items()})
         if alg.endswith("_unc"):
-            kw.update(calc_unc=True, nb=P["nb"])
+            kw.update(calc_unc=F.b(True), nb=F.i(P["nb"]))
+        elif F.name != "py":
+            kw.update(calc_unc=F.b(False))
         if "_MS" not in alg and ref_ind is not None:
-            kw["ref_ind"] = list(ref_ind)
+            kw["ref_ind"] = [F.i(r) for r in ref_ind]
         return cls(name="a", **kw)
     cls = A.pLSCF_MS if alg.endswith("_MS") else A.pLSCF
     hc = {k: v for k, v in P["hc"].items() if k != "cov_max"}
-    return cls(name="a", ordmax=P["pordmax"], ordmin=P.get("ordmin", 0), nxseg=P["nxseg"], method_SD=P["method_SD"], pov=P["pov"],
-               hc=hc, sc=dict(P["sc"]))
+    return cls(name="a", ordmax=F.i(P["pordmax"]), ordmin=F.i(P.get("ordmin", 0)), nxseg=F.i(P["nxseg"]), method_SD=P["method_SD"], pov=F.f(P["pov"]),
+               hc=F.hc(hc), sc={k: F.f(v) for k, v in P["sc"].items()})
 
 
 FIELDS = dict(
@@ -187,7 +217,7 @@ FIELDS = dict(
 )
 
 
-def run_alg(spec, inp, fs, kf, hold=None, reuse=None, same_setup=False):
+def run_alg(spec, inp, fs, kf, hold=None, reuse=None, same_setup=False, form=None, readonly=None):
     """Run one class through its setup on the (possibly transformed) input.  kf = factor applied to every frequency-valued
     ARGUMENT (sel_freq, DF...) - the same physical request expressed in the new time unit.
     hold: dict that receives the (setup, algorithm) objects.  reuse = such a pair: the SAME algorithm object (already run and
@@ -197,15 +227,26 @@ def run_alg(spec, inp, fs, kf, hold=None, reuse=None, same_setup=False):
     alg, P = spec["alg"], spec["P"]
     fam = family(alg)
     out = {}
+    F = form or Form()
+    readonly = spec.get("readonly", False) if readonly is None else readonly
+    given = []
+
+    def own(d):
+        # the harness' own copy of a record, presented READ-ONLY in a share of the cases (np.load(mmap_mode="r"), broadcast views ...)
+        d = keep_dtype(d)
+        given.append((d, d.copy()))
+        if readonly:
+            d.setflags(write=False)
+        return d
     try:
         if same_setup and reuse is not None:
             st, a = reuse
         else:
             if spec["setup"] == "single":
-                st = SingleSetup(keep_dtype(inp["data"]), fs=fs)
+                st = SingleSetup(own(inp["data"]), fs=F.f(fs))
             else:
-                st = MultiSetup_PreGER(fs=fs, ref_ind=[list(r) for r in inp["ref_ind"]], datasets=[keep_dtype(d) for d in inp["datasets"]])
-            a = reuse[1] if reuse is not None else make_alg(alg, P, inp.get("ref_ind") if spec["setup"] == "single" else None, kf)
+                st = MultiSetup_PreGER(fs=F.f(fs), ref_ind=[[F.i(x) for x in r] for r in inp["ref_ind"]], datasets=[own(d) for d in inp["datasets"]])
+            a = reuse[1] if reuse is not None else make_alg(alg, P, inp.get("ref_ind") if spec["setup"] == "single" else None, kf, F)
             if reuse is not None and fam == "SSI":
                 a.run_params.hc = dict(a.run_params.hc, cov_max=P["hc"]["cov_max"] * kf * kf)
             st.add_algorithms(a)
@@ -222,15 +263,17 @@ def run_alg(spec, inp, fs, kf, hold=None, reuse=None, same_setup=False):
             # how many modes come back must not depend on the time unit; order given as one int or as a per-mode list
             sel = [float(f) * kf for f in spec.get("sel_req", spec["sel"])]
             o0 = P["order"] if fam == "SSI" else P["porder"]
-            order = [max(1, o0 - (i % 2)) for i in range(len(sel))] if P.get("order_mode") == "list" else o0
+            order = [F.i(max(1, o0 - (i % 2))) for i in range(len(sel))] if P.get("order_mode") == "list" else o0
+        sel = [F.f(x) for x in sel]
         if fam == "FDD":
-            st.mpe("a", sel_freq=sel, DF=P["DF"] * kf)
+            st.mpe("a", sel_freq=sel, DF=F.f(P["DF"] * kf))
         elif fam == "EFDD":
-            st.mpe("a", sel_freq=sel, DF1=P["DF"] * kf, DF2=P["DF2"] * kf, cm=1, MAClim=P["MAClim"], sppk=P["sppk"], npmax=P["npmax"])
+            st.mpe("a", sel_freq=sel, DF1=F.f(P["DF"] * kf), DF2=F.f(P["DF2"] * kf), cm=F.i(1), MAClim=F.f(P["MAClim"]), sppk=F.i(P["sppk"]), npmax=F.i(P["npmax"]))
         else:
-            st.mpe("a", sel_freq=sel, order=order, rtol=P["rtol"])
+            st.mpe("a", sel_freq=sel, order=order, rtol=F.f(P["rtol"]))
     except Exception as e:  # noqa: BLE001
         out["mpe_exc"] = type(e).__name__
+    out["inputs_modified"] = any(not np.array_equal(d, d0) for d, d0 in given)
     r = a.result
     for k in FIELDS[fam]:
         v = getattr(r, k, None)
@@ -271,7 +314,13 @@ def apply_transform(spec, base_inp, T):
         return inp, 1.0, ident
     if t == "fs":
         return inp, T["k"], ident
-    if t == "rerun":
+    if t in ("rerun", "optform"):
+        return inp, 1.0, ident
+    if t == "asf32":
+        if single:
+            inp["data"] = base_inp["data"].astype(np.float32)
+        else:
+            inp["datasets"] = [d.astype(np.float32) for d in base_inp["datasets"]]
         return inp, 1.0, ident
     if t in ("asfloat", "igain"):
         # integer records: the float image of the same counts / an integer gain applied in the record's own integer arithmetic
@@ -494,7 +543,7 @@ def cmp_lab(rec, Tn, base, got, sc, site, exact_tables):
             return
 
 
-def unit_max_check(rec, name, Tn, Phi, site):
+def unit_max_check(rec, name, Tn, Phi, site, tol=1e-12):
     """every reported shape: the component of largest modulus equals 1+0j.  Phi[..., channel] rows or columns."""
     if Phi is None:
         return
@@ -512,7 +561,7 @@ def unit_max_check(rec, name, Tn, Phi, site):
     piv = P[np.arange(len(P)), k]
     dev = np.abs(piv - 1.0)
     rec.checked += 1
-    if np.any(~np.isfinite(dev)) or float(np.max(dev)) > 1e-12:
+    if np.any(~np.isfinite(dev)) or float(np.max(dev)) > tol:
         j = int(np.nanargmax(np.where(np.isfinite(dev), dev, np.inf)))
         rec.fail("%s under %s: largest-magnitude component of a reported shape is %s, not 1" % (name, Tn, complex(piv[j])), site + ":unit-max:" + name,
                  extra=dict(shape=[[float(z.real), float(z.imag)] for z in P[j]]))
@@ -669,7 +718,12 @@ def compare_core(rec, spec, base, got, T, kf, smap):
     tier = spec["tier"]
     Tn = T["t"]
     site = Tn + ("%+d" % T["g"] if Tn == "igain" else "") + ("-reuse" if T.get("reuse") and Tn != "rerun" else "") + ("-" + T["form"] if Tn == "refform" else "") + ("-neg" if T.get("neg") else "")
-    if Tn == "rerun" or (Tn == "refform" and T["form"] in ("negative", "positive")):
+    if Tn == "asf32":
+        cmp_f32(rec, spec, base, got, site)
+        return
+    if Tn == "optform":
+        site = "optform-" + T["form"]
+    if Tn in ("rerun", "optform") or (Tn == "refform" and T["form"] in ("negative", "positive")):
         tier = "A"   # the very same computation: identical results whatever the record
     if T.get("cmp"):
         tier = T["cmp"]
@@ -794,6 +848,46 @@ def compare_core(rec, spec, base, got, T, kf, smap):
                 return
 
 
+def cmp_f32(rec, spec, base, got, site):
+    """The same record stored as float32: the library then works (partly) in single precision.  Judged only as far as that
+    precision allows, on low-noise records: the run completes like the float64 one, the extracted modes agree (observed on the
+    unchanged tree: fn 6e-5, xi 4e-5, shapes 4e-3 at worst) and the singular values of the spectra agree to 1e-3."""
+    if base.get("exc") != got.get("exc"):
+        rec.fail("float32 record: run raises %s, the float64 image %s" % (got.get("exc"), base.get("exc")), site + ":exception")
+        return
+    if base.get("exc"):
+        return
+    fam = family(spec["alg"])
+    if fam in ("FDD", "EFDD"):
+        cmp_prop(rec, "S_val", "asf32", base["S_val"], got["S_val"], site, 1e-3)
+    Fb, Fg = base.get("Fn"), got.get("Fn")
+    if Fb is None or Fg is None or Fb.shape != Fg.shape or Fb.size == 0:
+        rec.not_judged += 1
+        return
+    rec.checked += 1
+    ok = (Fb > 0) & (Fg > 0)
+    Xb, Xg = base.get("Xi"), got.get("Xi")
+    if fam == "EFDD" and Xb is not None and Xg is not None:
+        ok &= (Xb > 0) & (Xg > 0) & (Xb < 1) & (Xg < 1)
+    if not ok.any():
+        rec.not_judged += 1
+        return
+    if np.max(np.abs(Fg[ok] / Fb[ok] - 1)) > 1e-3:
+        rec.fail("float32 record: extracted frequencies deviate by %.3g (relative) from those of the float64 image" % np.max(np.abs(Fg[ok] / Fb[ok] - 1)), site + ":Fn")
+        return
+    if fam != "FDD" and Xb is not None and Xg is not None and Xb.shape == Xg.shape and np.max(np.abs(Xg[ok] - Xb[ok])) > 2e-3:
+        rec.fail("float32 record: extracted damping ratios change by %.3g" % np.max(np.abs(Xg[ok] - Xb[ok])), site + ":Xi")
+        return
+    Pb, Pg = base.get("Phi"), got.get("Phi")
+    if Pb is not None and Pg is not None and Pb.shape == Pg.shape and Pb.ndim == 2:
+        for m in np.where(ok)[0]:
+            sd = min(shape_dev(Pb[:, m], Pg[:, m]), shape_dev(np.conj(Pb[:, m]), Pg[:, m]))
+            if sd > 5e-2:
+                rec.fail("float32 record: extracted shape %d deviates by %.3g from that of the float64 image" % (m, sd), site + ":Phi")
+                return
+        unit_max_check(rec, "Phi", "asf32", np.asarray(Pg).T[ok], site, tol=1e-5)
+
+
 def cmp_sy_mapped(rec, Tn, Sb, Sg, smap, site):
     """spectral matrix of the permuted / mixed channels: Q Sy Q^T on every line (smap is the linear map v -> Q v)."""
     if Sb is None or Sg is None or Sb.shape != Sg.shape:
@@ -860,6 +954,14 @@ def run_case(spec):
             rec.spec = {k: v for k, v in spec.items()}
         hold = {}
         base = run_alg(spec, base_inp, fs0, 1.0, hold=hold)
+        if base.get("inputs_modified"):
+            rec.fail("%s: the record handed to the setup was modified by the run" % spec["alg"], "base:input-modified")
+        if spec.get("readonly") and (base.get("exc") or base.get("mpe_exc")):
+            # the library never writes to its inputs: a record presented read-only must behave like a writable one
+            wr = run_alg(spec, base_inp, fs0, 1.0, readonly=False)
+            if (wr.get("exc"), wr.get("mpe_exc")) != (base.get("exc"), base.get("mpe_exc")):
+                rec.fail("%s raises %s on a READ-ONLY record (arr.setflags(write=False)) and %s on a writable copy of it" % (
+                    spec["alg"], base.get("exc") or "mpe:" + str(base.get("mpe_exc")), wr.get("exc") or wr.get("mpe_exc") or "nothing"), "read-only-input")
         nontrivial = "exc" not in base
         for nm in ("Phi_poles", "Phi"):
             v = base.get(nm)
@@ -870,7 +972,9 @@ def run_case(spec):
         for T in sorted(spec["transforms"], key=lambda T: T["t"] != "rerun"):
             inp, kf, smap = apply_transform(spec, base_inp, T)
             pair = hold.get("pair") if (T.get("reuse") and "exc" not in base) else None
-            got = run_alg(spec, inp, fs0 * kf, kf, reuse=pair, same_setup=(T["t"] == "rerun"))
+            got = run_alg(spec, inp, fs0 * kf, kf, reuse=pair, same_setup=(T["t"] == "rerun"), form=Form(T["form"]) if T["t"] == "optform" else None)
+            if got.get("inputs_modified"):
+                rec.fail("%s under %s: the record handed to the setup was modified by the run" % (spec["alg"], T["t"]), T["t"] + ":input-modified")
             compare(rec, spec, base, got, T, kf, smap)
         m_int = hank_method(spec["alg"])
         if spec["tier"] == "I" and rec.fails and m_int in (spec.get("attrib_int") or []):
@@ -934,6 +1038,7 @@ def gen_cases(ctx, tier, per_alg):
             spec = dict(id="%s-%s-%d" % (tier, alg, v), tier=tier, alg=alg, setup="single" if single else "multi", seed=int(rng.integers(1, 2**31)),
                         nmodes=nmodes, kind="decay" if v % 4 == 3 else "random")
             spec["amp"] = (1.0, 2e-3, 1.5e3)[v % 3]
+            spec["readonly"] = bool(v % 2)   # the records are handed over read-only in half of the cases
             spec["fs"] = float(rng.choice([1.0, 10.0, 64.0, 100.0, 250.0]))
             spec["N"] = int(rng.choice([600, 800, 1024]))
             spec["noise"] = float(rng.choice([0.3, 0.6, 1.0])) if tier == "A" else float(rng.choice([0.01, 0.02, 0.05]))
@@ -976,6 +1081,8 @@ def gen_cases(ctx, tier, per_alg):
                                       dict(t="fs", k=float(2.0 ** kf[0])), dict(t="fs", k=float(2.0 ** kf[1]), reuse=True), dict(t="rerun", reuse=True)]
                 if ref is not None:
                     spec["transforms"].append(dict(t="refform", form="positive" if v % 4 == 1 else "negative"))
+                # the same option VALUES written as NumPy scalars / 0-d arrays / 1-0 (see class Form): identical results
+                spec["transforms"].append(dict(t="optform", form=("np64", "np32", "arange")[v % 3]))
             else:
                 g = float(10 ** rng.uniform(-6, 6)) * (1 if rng.random() < 0.7 else -1)
                 k = float(10 ** rng.uniform(-2, 2))
@@ -984,6 +1091,7 @@ def gen_cases(ctx, tier, per_alg):
                 spec["transforms"] = [dict(t="gain", g=1e-6 * sg), dict(t="gain", g=-1e6 * sg, reuse=True), dict(t="gain", g=g), dict(t="fs", k=k),
                                       dict(t="fs", k=k2, reuse=True), dict(t="fs", k=0.01), dict(t="fs", k=100.0), dict(t="rerun", reuse=True),
                                       dict(t="perm", seed=int(rng.integers(1, 2**31))), dict(t="mix", seed=int(rng.integers(1, 2**31)))]
+                spec["transforms"].append(dict(t="asf32"))   # the same (low-noise) record stored as float32
                 if ref is not None:
                     spec["transforms"] += [dict(t="perm", seed=int(rng.integers(1, 2**31)), neg=True), dict(t="refform", form="reversed"),
                                            dict(t="refform", form="positive" if v % 4 == 1 else "negative")]
@@ -1019,7 +1127,7 @@ def gen_int_cases(ctx, per_alg):
             k += 1
             nmodes = int(rng.integers(2, 4))
             spec = dict(id="I-%s-%d" % (alg, v), tier="I", alg=alg, setup="single" if single else "multi", seed=int(rng.integers(1, 2**31)), nmodes=nmodes,
-                        kind="random", idtype=idtype, peak=peak, offset=offset, amp=1.0, fs=float(rng.choice([10.0, 100.0, 256.0])), N=int(rng.choice([5000, 8000, 12000])),
+                        kind="random", idtype=idtype, peak=peak, offset=offset, amp=1.0, readonly=bool((v // 2 + k) % 2), fs=float(rng.choice([10.0, 100.0, 256.0])), N=int(rng.choice([5000, 8000, 12000])),
                         noise=float(rng.choice([0.02, 0.1, 0.3])))
             if family(alg) in ("FDD", "EFDD"):
                 spec["band"] = (0.15, 0.42)
@@ -1074,6 +1182,34 @@ def model_side(ctx):
 
     rng = ctx.np_rng
     exprs, meta = [], []
+    cnt = [0]
+
+    def call(name, fn, arrs):
+        """function-level call on the harness' own copies of the arrays, READ-ONLY every other time; the library never writes to its
+        inputs, so a read-only array must behave like a writable one and come back bit-equal."""
+        cnt[0] += 1
+        ro = cnt[0] % 2 == 0
+        own = [np.array(x) for x in arrs]
+        keep = [x.copy() for x in own]
+        for x in own:
+            x.setflags(write=not ro)
+        try:
+            out = fn(*own)
+        except Exception as e:  # noqa: BLE001
+            if not ro:
+                raise
+            out = fn(*[x.copy() for x in keep])   # raises again if the arrays are not the reason
+            ctx.fail("oracle", "%s raises %s (%s) on READ-ONLY input arrays and runs on writable copies of them" % (name, type(e).__name__, str(e)[:80]),
+                     dict(kind="read-only-input", function=name, arrays=[x.tolist() for x in keep]), key="C08:%s:read-only-input" % name)
+            return out
+        if any(not np.array_equal(x, k0, equal_nan=True) for x, k0 in zip(own, keep)):
+            ctx.fail("oracle", "%s modifies its input arrays" % name, dict(kind="input-modified", function=name, arrays=[x.tolist() for x in keep]),
+                     key="C08:%s:input-modified" % name)
+        return out
+
+    def form():
+        # option values as Python / NumPy scalars, 0-d arrays, elements of arange (see class Form): same value, same result
+        return Form(("py", "np64", "np32", "arange")[cnt[0] % 4])
     # ---- Hankel: right-hand sides of the theorems on the untransformed data vs build_hank on the transformed data
     shapes = [(2, 1, 1, 9), (3, 2, 2, 13), (2, 2, 1, 10), (3, 1, 2, 12)] if ctx.quick() else \
         [(l, r, br, 2 * br + 7 + e) for l in (2, 3, 4) for r in range(1, l + 1) for br in (1, 2, 3) for e in (0, 3)]
@@ -1093,13 +1229,13 @@ def model_side(ctx):
                 arg = ("%s %d %d %d %d %s %s" % (qc(Fraction(1, N)), l, r, br, Ndat, qc_mat(Y), qc_mat(Yr))) if nm == "mm" else \
                       ("%s %d %d %d %d %s %s" % (inv, l, r, br, Ndat, qc_mat(Y), qc_mat(Yr)))
                 case0 = dict(kind="hankel", method=method, l=l, r=r, br=br, Ndat=Ndat, Y=Y.tolist(), Yref=Yr.tolist())
-                Hg = ssi.build_hank(g * Y, g * Yr, br, method)[0]
+                Hg = call("build_hank", lambda a_, b_: ssi.build_hank(a_, b_, form().i(br), method)[0], [g * Y, g * Yr])
                 exprs.append("showMat (hank_gain_rhs_%s_l %s %s)" % (nm, qc(g), arg))
                 meta.append(("hank", dict(case0, t="gain", g=g), Hg))
-                Hp = ssi.build_hank(Y[p, :], Yr[rho, :], br, method)[0]
+                Hp = call("build_hank", lambda a_, b_: ssi.build_hank(a_, b_, form().i(br), method)[0], [Y[p, :], Yr[rho, :]])
                 exprs.append("showMat (hank_perm_rhs_%s_l %s %s %s)" % (nm, clist(["%d%%nat" % x for x in p]), clist(["%d%%nat" % x for x in rho]), arg))
                 meta.append(("hank", dict(case0, t="perm", p=p.tolist(), rho=rho.tolist()), Hp))
-                Hm = ssi.build_hank(Q @ Y, Qr @ Yr, br, method)[0]
+                Hm = call("build_hank", lambda a_, b_: ssi.build_hank(a_, b_, form().i(br), method)[0], [Q @ Y, Qr @ Yr])
                 exprs.append("showMat (hank_mix_rhs_%s_l %s %s %s)" % (nm, qc_mat(Q), qc_mat(Qr), arg))
                 meta.append(("hank", dict(case0, t="mix", Q=Q.tolist(), Qr=Qr.tolist()), Hm))
     # ---- unity normalisation as exposed by ssi.ac2mp, plscf.ac2mp_poly, fdd.FDD_mpe
@@ -1114,10 +1250,10 @@ def model_side(ctx):
         which = k % 3
         try:
             if which == 0:
-                fn, xi, phi, lam_c = ssi.ac2mp(A, C, dt)[:4]
+                fn, xi, phi, lam_c = call("ac2mp", lambda a_, c_: ssi.ac2mp(a_, c_, form().f(dt), calc_unc=form().b(False))[:4], [A, C])
                 lam_d, _, vec = sla.eig(A, left=True)
             elif which == 1:
-                fn, xi, phi, lam_c = plscf.ac2mp_poly(A, C, dt, "per", 64)
+                fn, xi, phi, lam_c = call("ac2mp_poly", lambda a_, c_: plscf.ac2mp_poly(a_, c_, form().f(dt), "per", form().i(64)), [A, C])
                 lam_d, vec = np.linalg.eig(A)
             else:
                 nf = 12
@@ -1128,7 +1264,14 @@ def model_side(ctx):
                 Sval[0, 0, pk] = 50.0
                 Sval[1, 1, :] = 1.0
                 freq = np.arange(nf) * 0.25
-                Fn, Phi = fdd.FDD_mpe(Sval, Svec, freq, [freq[pk]], DF=0.5)
+                Fn, Phi = call("FDD_mpe", lambda a_, b_, c_: fdd.FDD_mpe(a_, b_, c_, [form().f(freq[pk])], DF=form().f(0.5)), [Sval, Svec, freq])
+                # storage: the same singular values / vectors as float32 / complex64 (what single-precision spectra hand over)
+                Fn32, Phi32 = fdd.FDD_mpe(Sval.astype(np.float32), Svec.astype(np.complex64), freq, [freq[pk]], DF=0.5)
+                case32 = dict(kind="FDD_mpe-complex64", Svec_line=[[z.real, z.imag] for z in Svec[0, :, pk]], pk=pk)
+                ctx.count(case32)
+                if Fn32[0] != Fn[0] or not np.allclose(Phi32, Phi, rtol=0, atol=1e-5) or abs(Phi32[np.argmax(np.abs(Phi32[:, 0])), 0] - 1) > 1e-6:
+                    ctx.fail("oracle", "FDD_mpe on complex64 singular vectors: result differs from that of the complex128 image beyond single precision", case32,
+                             key="C08:FDD_mpe:complex64")
                 raw = [Svec[0, :, pk]]
                 got = [Phi[:, 0]]
                 if Fn[0] != freq[pk]:
